@@ -6,6 +6,7 @@
 (b) end to end: generated node behind the real TCPServer on an ephemeral loopback port, real client with its
     real threads: every value written reaches the driver equal and comes back into the cache.
 """
+import time
 import json
 import types
 import threading
@@ -547,6 +548,36 @@ def proxy_part(ctx, case, classes, kit, port):
                         ctx.finding(f'proxy:cache-differs-from-node:{p["T"]["k"]}', sub, f'cache of the proxy\'s client {cache!r} ({item.readerror!r}), node cache {node!r}')
                     else:
                         ctx.ok('proxy-write-roundtrip')
+            # a read error of the node is handed through unchanged - also when the parameter is read again and again
+            for p in cs['params']:
+                if not p.get('read') or p.get('export', True) is not True:
+                    continue
+                ctx.ev()
+                sub = {'kind': 'e2e', 'classes': [dict(c, params=[q for q in c['params'] if q is p]) if c is cs else dict(c, params=c['params'][:1]) for c in case['classes']]}
+                rec.setdefault('readfail', set()).add(p['name'])
+                try:
+                    try:
+                        getattr(mobj, 'read_' + p['name'])()      # the driver notices the failure (poll): announced to the proxy
+                    except Exception:   # noqa
+                        pass
+                    time.sleep(0.15)
+                    texts = []
+                    for _ in range(3):
+                        try:
+                            item = client.readParameter(mname, p['name'])
+                        except Exception as e:   # noqa
+                            ctx.finding(f'proxy:read-raises:{type(e).__name__}', sub, repr(e)[:200])
+                            return
+                        texts.append((type(item.readerror).__name__, str(item.readerror)) if item is not None else None)
+                    direct = mobj.parameters[p['name']].readerror
+                    want = (type(direct).__name__, str(direct))
+                    if any(t != want for t in texts):
+                        ctx.finding('proxy:read-error-changed' + (':growing' if len(set(texts)) > 1 else ''), sub, f'node: {want!r}; through the proxy: {texts!r}'[:400])
+                    else:
+                        ctx.ok('proxy-read-error')
+                finally:
+                    rec['readfail'].discard(p['name'])
+                break
     finally:
         try:
             client.disconnect()
